@@ -443,3 +443,13 @@ def _(self):
     ensures("run_transitions_removed_then_begin", ncalls("remove_transitions") == 1,
             call_arg_mentions("remove_transitions", 0, 0, "self._transitions_run"), ncalls("set_state") == 1,
             call_arg_mentions("set_state", 0, 0, "'begin'"), event_before("remove_transitions(", "set_state("))
+
+
+# C15 (scale schedule): the multiscale transition goes back to 'begin' (one more scale) exactly while the current scale is not the
+# last one, scale 0 -- the condition callback of the 'multiscale' run transition (its presence in the table is a C01 table obligation)
+@contract("pandora.state_machine.PandoraMachine.is_not_last_scale", props=["C15", "C01"])
+def _(self, _, __):
+    types(_="opaque", __="opaque")
+    option(glue=True)
+    ensures("another_scale_iff_current_scale_is_not_zero", branch("self.current_scale == 0") is not None,
+            result_text() == ("False" if branch("self.current_scale == 0") else "True"), ncalls("trigger") == 0)
